@@ -22,7 +22,10 @@ class Cut:
         self.source = ast.unparse(self.loop)
         mod = ast.Module(body=self.loop.body, type_ignores=[])
         ast.fix_missing_locations(mod)
-        self.body_code = compile(mod, f'<loop body of {func.__qualname__}>', 'exec')
+        try:
+            self.body_code = compile(mod, f'<loop body of {func.__qualname__}>', 'exec')
+        except SyntaxError:
+            self.body_code = None        # body contains return / break / continue: use run_body_fn
         if isinstance(self.loop, ast.While):
             ex = ast.Expression(self.loop.test)
             ast.fix_missing_locations(ex)
@@ -72,3 +75,35 @@ class Cut:
         ns = {}
         exec(compile(mod, f'<{name} of {self.func.__qualname__}>', 'exec'), self.func.__globals__, ns)
         return ns[name](**{n: env[n] for n in names})
+
+    def run_body_fn(self, env):
+        """execute the loop body as a function (so that `return`, `break`, `continue` inside it
+        are meaningful): returns ('return', value) | ('break' | 'continue' | 'fallthrough', locals)"""
+        import copy as _copy
+
+        class T(ast.NodeTransformer):
+            def visit_Return(self, node):
+                return ast.copy_location(ast.Return(value=ast.Tuple(
+                    elts=[ast.Constant('return'), node.value or ast.Constant(None)], ctx=ast.Load())), node)
+
+            def _loc(self, tag, node):
+                return ast.copy_location(ast.Return(value=ast.Tuple(
+                    elts=[ast.Constant(tag), ast.Call(func=ast.Name(id='locals', ctx=ast.Load()), args=[], keywords=[])],
+                    ctx=ast.Load())), node)
+
+            def visit_Break(self, node):
+                return self._loc('break', node)
+
+            def visit_Continue(self, node):
+                return self._loc('continue', node)
+
+            def visit_For(self, node):      # nested loops keep their own break / continue
+                return node
+
+            def visit_While(self, node):
+                return node
+        body = [T().visit(_copy.deepcopy(s)) for s in self.loop.body]
+        body.append(ast.Return(value=ast.Tuple(
+            elts=[ast.Constant('fallthrough'), ast.Call(func=ast.Name(id='locals', ctx=ast.Load()), args=[], keywords=[])],
+            ctx=ast.Load())))
+        return self._call('__body__', body, env)
